@@ -278,6 +278,8 @@ def parsePairs (s : String) : List (Nat × Int) :=
 structure SW where
   inC : Bool := false          -- the scenario so far is inside the contract
   hist : List Nat := []        -- slot indices of consecutive sequential round-robin picks since the last reconfiguration
+  cfg : Option Nat := none     -- the loop count configured last while no Pick was in flight (newManager / a successful SetNumLoops)
+  inPhase : Bool := false      -- goroutines are inside Pick (between `spawn` and `endphase`)
 
 def specLine (op impl : String) : StateM SW String := do
   let w ← get
@@ -298,6 +300,17 @@ def specLine (op impl : String) : StateM SW String := do
     | "pick" :: _ => w.hist
     | "step" :: _ => w.hist
     | _ => []
+  let inPhase := match otoks with
+    | "spawn" :: _ => true
+    | "endphase" :: _ => false
+    | ["scn", _] => false
+    | _ => w.inPhase
+  let cfg := match otoks with
+    | ["scn", _] => none
+    | ["new", n] => some (toNat! n)
+    | ["setn", n] => if inPhase then none else if etoks == ["ok"] then some (toNat! n) else w.cfg
+    | _ => w.cfg
+  let w := { w with cfg := cfg, inPhase := inPhase }
   set { w with inC := inC, hist := hist }
   if !inC then return "X" else
   if ev == "hang" || ev == "livelock" || ev == "toolong" then return "IMPL-SPEC-FAIL " ++ ev else
@@ -310,6 +323,9 @@ def specLine (op impl : String) : StateM SW String := do
       | "spawn" :: _ => false
       | _ => true
     if quiescent && o.status == 2 && !o.sized then return "IMPL-SPEC-FAIL pool not sized: " ++ d else
+    -- "after the configured loop count is changed while no Pick is in flight, the next Picks bring the pool to exactly that many"
+    if quiescent && !inPhase && o.status == 2 && cfg.isSome && cfg != some o.polls.length then
+      return s!"IMPL-SPEC-FAIL pool runs {o.polls.length} loops, configured {cfg.getD 0}: " ++ d else
     match etoks with
     | ["panic"] => return "IMPL-SPEC-FAIL Pick panicked"
     | ["retnil"] => return "IMPL-SPEC-FAIL Pick returned nil"
